@@ -1136,6 +1136,224 @@ fn c_strategy() -> impl Strategy<Value = CCase> {
 
 // ============================================================================================================ run
 
+// ------------------------------------------------------------------------------------------------ D: byte level
+
+/// a seed (honest proof encoding) with 0..4 byte-level mutations
+#[derive(Clone, Debug, Serialize, Deserialize)]
+pub struct DCase {
+    pub seed: u16,
+    pub muts: Vec<DMut>,
+}
+
+#[derive(Clone, Debug, Serialize, Deserialize)]
+pub enum DMut {
+    Set { at: u16, v: u8 },
+    Xor { at: u16, v: u8 },
+    Insert { at: u16, v: u8 },
+    Delete { at: u16, n: u8 },
+    /// copy a window of another seed's encoding over this one (leaves / path nodes of another tree or selection)
+    Splice { from: u16, src: u16, dst: u16, len: u8 },
+    /// overwrite with a window of the same encoding (moves a node value onto a leaf slot and the like)
+    CopyWithin { src: u16, dst: u16, len: u8 },
+    Truncate { at: u16 },
+}
+
+#[derive(Clone, Debug, Serialize, Deserialize)]
+pub struct DRaw {
+    pub data_hex: String,
+}
+
+fn d_strategy(n_seeds: usize) -> impl Strategy<Value = DCase> {
+    let _ = n_seeds;
+    let r = any::<u16>;
+    let m = prop_oneof![
+        3 => (r(), any::<u8>()).prop_map(|(at, v)| DMut::Set { at, v }),
+        3 => (r(), 1u8..=255).prop_map(|(at, v)| DMut::Xor { at, v }),
+        1 => (r(), any::<u8>()).prop_map(|(at, v)| DMut::Insert { at, v }),
+        1 => (r(), 1u8..=40).prop_map(|(at, n)| DMut::Delete { at, n }),
+        4 => (r(), r(), r(), prop_oneof![Just(32u8), Just(33u8), Just(34u8), 1u8..=80]).prop_map(|(from, src, dst, len)| DMut::Splice { from, src, dst, len }),
+        4 => (r(), r(), prop_oneof![Just(32u8), Just(33u8), 1u8..=80]).prop_map(|(src, dst, len)| DMut::CopyWithin { src, dst, len }),
+        1 => r().prop_map(|at| DMut::Truncate { at }),
+    ];
+    (r(), prop::collection::vec(m, 0..=4)).prop_map(|(seed, muts)| DCase { seed, muts })
+}
+
+fn d_bytes(c: &DCase) -> Vec<u8> {
+    let seeds = crate::mkproof_oracle::seed_corpus_cached();
+    let mut b = seeds[vcore::pick_index(c.seed, seeds.len())].clone();
+    for m in &c.muts {
+        if b.is_empty() {
+            break;
+        }
+        match m {
+            DMut::Set { at, v } => {
+                let i = vcore::pick_index(*at, b.len());
+                b[i] = *v;
+            }
+            DMut::Xor { at, v } => {
+                let i = vcore::pick_index(*at, b.len());
+                b[i] ^= *v;
+            }
+            DMut::Insert { at, v } => {
+                let i = vcore::pick_index(*at, b.len() + 1);
+                b.insert(i, *v);
+            }
+            DMut::Delete { at, n } => {
+                let i = vcore::pick_index(*at, b.len());
+                let e = (i + *n as usize).min(b.len());
+                b.drain(i..e);
+            }
+            DMut::Splice { from, src, dst, len } => {
+                let o = &seeds[vcore::pick_index(*from, seeds.len())];
+                let s = vcore::pick_index(*src, o.len());
+                let e = (s + *len as usize).min(o.len());
+                let d = vcore::pick_index(*dst, b.len());
+                for (k, x) in o[s..e].iter().enumerate() {
+                    if d + k < b.len() {
+                        b[d + k] = *x;
+                    }
+                }
+            }
+            DMut::CopyWithin { src, dst, len } => {
+                let s = vcore::pick_index(*src, b.len());
+                let e = (s + *len as usize).min(b.len());
+                let w: Vec<u8> = b[s..e].to_vec();
+                let d = vcore::pick_index(*dst, b.len());
+                for (k, x) in w.iter().enumerate() {
+                    if d + k < b.len() {
+                        b[d + k] = *x;
+                    }
+                }
+            }
+            DMut::Truncate { at } => {
+                let i = vcore::pick_index(*at, b.len());
+                b.truncate(i);
+            }
+        }
+    }
+    b
+}
+
+fn d_judge(rep: &mut Report, data: &[u8], structured: bool, shape: String) {
+    use crate::mkproof_oracle::Verdict;
+    match vcore::catch(|| crate::mkproof_oracle::judge_input(data, structured)) {
+        Err(p) => {
+            rep.violation("D:panic-in-verify", format!("MKProof decoding / verification panics on {}: {p}", hex::encode(data)));
+        }
+        Ok(Verdict::Irrelevant) => {
+            rep.label("D:not-verifying");
+        }
+        Ok(Verdict::Sound { leaves }) => {
+            rep.label("D:verifies-sound");
+            rep.nontrivial(format!("{shape}|sound|{}", leaves.min(9)));
+        }
+        Ok(Verdict::KnownInternalNode) => {
+            rep.label("D:verifies-internal-node(known)");
+            rep.excluded_known("internal-node-as-leaf:mktree");
+        }
+        Ok(Verdict::Violation(what)) => {
+            rep.violation("D:non-member-vouched", format!("{what}; input {}", hex::encode(data)));
+        }
+    }
+}
+
+fn d_case(c: &DCase) -> Report {
+    let mut rep = Report::new();
+    let b = d_bytes(c);
+    rep.label(if c.muts.is_empty() { "D:honest" } else { "D:mutated" });
+    let kinds: Vec<&str> = c
+        .muts
+        .iter()
+        .map(|m| match m {
+            DMut::Set { .. } => "set",
+            DMut::Xor { .. } => "xor",
+            DMut::Insert { .. } => "ins",
+            DMut::Delete { .. } => "del",
+            DMut::Splice { .. } => "splice",
+            DMut::CopyWithin { .. } => "copy",
+            DMut::Truncate { .. } => "trunc",
+        })
+        .collect();
+    d_judge(&mut rep, &b, false, format!("{}|{kinds:?}", c.seed % 64));
+    if c.muts.is_empty() && !rep.labels.iter().any(|l| l == "D:verifies-sound") {
+        rep.violation("D:honest-proof-rejected", format!("the honest encoding #{} does not decode / verify", c.seed));
+    }
+    rep
+}
+
+/// the structured input format of the fuzz target (seed byte + 4-byte edits), generated
+#[derive(Clone, Debug, Serialize, Deserialize)]
+pub struct DStruct {
+    pub data: Vec<u8>,
+}
+
+fn d_struct_case(c: &DStruct) -> Report {
+    let mut rep = Report::new();
+    let edits = (c.data.len().saturating_sub(1)) / 4;
+    rep.label(if edits == 0 { "D:honest" } else { "D:structured-edits" });
+    let ops: Vec<u8> = c.data.iter().skip(1).step_by(4).take(12).map(|o| o % 10).collect();
+    d_judge(&mut rep, &c.data, true, format!("s{}|{ops:?}", c.data[0] % 64));
+    rep
+}
+
+fn d_raw_case(c: &DRaw) -> Report {
+    let mut rep = Report::new();
+    rep.label("D:libfuzzer-artifact");
+    match hex::decode(&c.data_hex) {
+        Ok(b) => {
+            // a fuzzer artifact carries the mode byte of the target's input format
+            let structured = b.first().is_some_and(|m| m % 2 == 1);
+            d_judge(&mut rep, b.get(1..).unwrap_or(&[]), structured, "artifact".into())
+        }
+        Err(_) => {
+            rep.discard("undecodable artifact");
+        }
+    }
+    rep
+}
+
+/// thorough tier: the libFuzzer target over the same oracle (approximately pinned by -seed / -runs; the artifact is
+/// the reproducible unit and is judged in-process by `d_raw_case`)
+fn run_mkproof_fuzzer(check: &Check, runs_per_worker: u64) -> Vec<DRaw> {
+    let mut found = vec![];
+    let fuzz_dir = format!("{}/fuzz", std::env::var("VERIF_HARNESS_DIR").unwrap_or_else(|_| "/verif/harness".into()));
+    let scratch = check.scratch_dir().join("fuzz-mkproof");
+    let _ = std::fs::remove_dir_all(&scratch);
+    let corpus = scratch.join("corpus");
+    let artifacts = scratch.join("artifacts");
+    let _ = std::fs::create_dir_all(&corpus);
+    let _ = std::fs::create_dir_all(&artifacts);
+    crate::mkproof_oracle::write_corpus(&corpus);
+    let build = std::process::Command::new("cargo").args(["+nightly", "fuzz", "build", "--fuzz-dir", ".", "fuzz_mkproof"]).current_dir(&fuzz_dir).env("CARGO_NET_OFFLINE", "true").output();
+    if !matches!(&build, Ok(o) if o.status.success()) {
+        check.inconclusive("cargo fuzz build fuzz_mkproof failed".into());
+        return found;
+    }
+    let args: Vec<String> = vec![
+        "+nightly".into(), "fuzz".into(), "run".into(), "--fuzz-dir".into(), ".".into(), "fuzz_mkproof".into(), corpus.display().to_string(), "--".into(),
+        format!("-runs={runs_per_worker}"), format!("-seed={}", (check.seed % 0x7fff_ffff).max(1)), "-max_len=4096".into(), "-len_control=0".into(), "-timeout=30".into(),
+        "-rss_limit_mb=4096".into(), format!("-artifact_prefix={}/", artifacts.display()), format!("-fork={}", check.threads.max(1)), "-ignore_crashes=0".into(), "-print_final_stats=1".into(),
+    ];
+    let t0 = std::time::Instant::now();
+    let out = std::process::Command::new("cargo").args(&args).current_dir(&fuzz_dir).env("CARGO_NET_OFFLINE", "true").output();
+    let (ok, tail) = match &out {
+        Ok(o) => (o.status.success(), String::from_utf8_lossy(&o.stderr).lines().rev().take(6).collect::<Vec<_>>().join(" | ")),
+        Err(e) => (false, e.to_string()),
+    };
+    if let Ok(rd) = std::fs::read_dir(&artifacts) {
+        for f in rd.flatten() {
+            if let Ok(data) = std::fs::read(f.path()) {
+                found.push(DRaw { data_hex: hex::encode(data) });
+            }
+        }
+    }
+    check.note_section("libfuzzer:fuzz_mkproof", json!({"runs_per_worker": runs_per_worker, "workers": check.threads, "wall_s": t0.elapsed().as_secs_f64(), "exit_ok": ok, "artifacts": found.len(), "tail": tail.chars().take(600).collect::<String>()}));
+    if !ok && found.is_empty() {
+        check.inconclusive(format!("libFuzzer run of fuzz_mkproof ended abnormally without an artifact: {}", tail.chars().take(300).collect::<String>()));
+    }
+    found
+}
+
 pub fn run(args: &Args) -> i32 {
     let mut check = Check::new("C09", "exploration", args);
     check
@@ -1217,6 +1435,16 @@ pub fn run(args: &Args) -> i32 {
     check.enumerate("B-exhaustive", b_items.into_iter(), true, b_case);
     check.section("B-sampled", || b_random_strategy(300), t.pick(6000, 300_000), b_case);
     check.section("C-maps", c_strategy, t.pick(4000, 200_000), c_case);
+
+    // byte level (D): bincode encodings of honest proofs over fixed committed trees, mutated; the same oracle runs inside
+    // the libFuzzer target `fuzz_mkproof` (coverage-guided, thorough tier), whose artifacts are judged here in-process
+    let n_seeds = crate::mkproof_oracle::seed_corpus().len();
+    check.section("D-mkproof-bytes", move || d_strategy(n_seeds), t.pick(60_000, 1_500_000), d_case);
+    check.section("D-mkproof-structured", || prop::collection::vec(any::<u8>(), 1..50).prop_map(|data| DStruct { data }), t.pick(120_000, 3_000_000), d_struct_case);
+    if t == Tier::Thorough && !check.is_replay() {
+        let found = run_mkproof_fuzzer(&check, 3_000_000);
+        check.enumerate("D-libfuzzer-artifacts", found.into_iter(), false, d_raw_case);
+    }
 
     // dedicated witnesses of the open findings (executed on every run)
     check.witness("internal-node-as-leaf:mktree", "MKProof: the root does not commit to the leaf level — a proof over the height-1 nodes of a 4-leaf tree verifies against its root and vouches for them as leaves", || {
